@@ -15,7 +15,9 @@ package main
 //     (streams with an empty run excepted, see the notes of the run);
 //   * foreign streams: specification-conforming RLE / bit-packed streams with
 //     run-length runs of ANY length (not only the multiples of 8 that Go
-//     writes) and bit-packed runs, for levels, int32 and booleans: Go must
+//     writes; up to run headers of three bytes) and bit-packed runs of any
+//     number of groups (run headers of two bytes), for levels, int32,
+//     dictionary indexes (bit width byte in front) and booleans: Go must
 //     decode them to the values they were built from; a bit-packed block cut
 //     short must be an error.
 
@@ -554,8 +556,15 @@ func genRuns(rng *rand.Rand, w int, rleOnly bool) []frun {
 		if rleOnly || rng.Intn(3) > 0 {
 			counts := []int{1, 2, 3, 5, 7, 8, 9, 10, 13, 15, 16, 17, 23, 24, 31, 33, 63, 64, 65, 100, 127, 128, 129, 1 + rng.Intn(300)}
 			runs[i] = frun{Count: counts[rng.Intn(len(counts))], Val: val()}
+			if rng.Intn(40) == 0 { // run headers of three bytes: more values than Go's encoders put in one run
+				runs[i].Count = []int{8191, 8192, 8193, 8192 + rng.Intn(9000)}[rng.Intn(4)]
+			}
 		} else {
-			g := make([]uint32, 8*(1+rng.Intn(3)))
+			groups := 1 + rng.Intn(3)
+			if rng.Intn(10) == 0 { // bit-packed runs of many groups: run headers of two bytes from 64 groups on
+				groups = []int{9, 31, 63, 64, 65, 127, 128, 64 + rng.Intn(100)}[rng.Intn(8)]
+			}
+			g := make([]uint32, 8*groups)
 			for j := range g {
 				g[j] = val()
 			}
@@ -575,10 +584,17 @@ type foreignCase struct {
 func (k *checker) checkForeign(fc *foreignCase) {
 	c := k.c
 	body, vals, lastBP := serializeRuns(fc.Width, fc.Runs)
-	stream := body
-	if fc.Kind == "bool" {
-		stream = append(binary.LittleEndian.AppendUint32(nil, uint32(len(body))), body...)
+	// the page: booleans carry the length of the runs in front, dictionary indexes their bit width
+	page := func(body []byte) []byte {
+		switch fc.Kind {
+		case "bool":
+			return append(binary.LittleEndian.AppendUint32(nil, uint32(len(body))), body...)
+		case "dict":
+			return append([]byte{byte(fc.Width)}, body...)
+		}
+		return body
 	}
+	stream := page(body)
 	us := make([]uint64, len(vals))
 	for i, v := range vals {
 		us[i] = uint64(v)
@@ -619,10 +635,7 @@ func (k *checker) checkForeign(fc *foreignCase) {
 	// a bit-packed block cut short must be an error
 	if lastBP >= 0 && len(body) > lastBP {
 		cut := lastBP + k.cutRng.Intn(len(body)-lastBP)
-		t := body[:cut]
-		if fc.Kind == "bool" {
-			t = append(binary.LittleEndian.AppendUint32(nil, uint32(cut)), t...)
-		}
+		t := page(body[:cut])
 		stats.foreignCut++
 		for _, src := range [][]byte{exact(t), roomy(t)} {
 			if gt := goDecode(fc.Kind, fc.Width, src); gt.status != "err" {
@@ -643,6 +656,10 @@ func (k *checker) checkForeign(fc *foreignCase) {
 		if sd := c.Ask(fmt.Sprintf("c04.rle_bool_dec %d %s", len(vals), core.Hexs(stream))); sd != want {
 			k.corr("foreign.generator.bool", want, sd)
 		}
+	} else if fc.Kind == "dict" {
+		if sd := c.Ask("c04.dict_dec " + core.Hexs(stream)); sd != want {
+			k.corr("foreign.generator.dict", want, sd)
+		}
 	} else if sd := c.Ask(fmt.Sprintf("c04.rle_dec %d %s", fc.Width, core.Hexs(stream))); sd != want {
 		k.corr("foreign.generator", want, sd)
 	}
@@ -656,11 +673,13 @@ func runForeign(c *core.Ctx) {
 	n := c.N(1200, 30000)
 	for i := 0; i < n; i++ {
 		var fc foreignCase
-		switch i % 3 {
-		case 0:
+		switch i % 7 {
+		case 0, 3:
 			fc = foreignCase{Kind: "bool", Width: 1}
-		case 1:
+		case 1, 4:
 			fc = foreignCase{Kind: "levels", Width: rng.Intn(9)}
+		case 6: // RLE_DICTIONARY index pages: the bit width in front, any width up to 32
+			fc = foreignCase{Kind: "dict", Width: rng.Intn(33)}
 		default:
 			fc = foreignCase{Kind: "int32", Width: []int{0, 1, 2, 3, 5, 7, 8, 9, 12, 16, 17, 24, 31, 32}[rng.Intn(14)]}
 		}
@@ -703,7 +722,7 @@ func reportDecoderStats(c *core.Ctx) {
 	}
 	c.Note("Go decoders vs their Gallina models (Enc/GoDec*.v): %d streams (Go's own bytes; truncations, bit flips, lying counts, empty runs, trailing bytes derived from them; slices with cap = len): Go ok %d, error %d, no panic; outcome and values equal to the model's on all of them unless a corr:C04.go_decoder.* mismatch is listed", stats.streams, stats.goOK, stats.goErr)
 	c.Note("Go vs specification decoder on those streams: Go accepts / specification rejects %d (Go tolerates a last DELTA mini-block without padding and a short bit-width list), Go rejects / specification accepts %d (Go's header checks, 10-byte varints, run counts above MaxInt32, mini-block bit widths above the width of the type), both accept with different values only when an empty run is present: %d", stats.lenient, stats.strict, stats.emptyRuns)
-	c.Note("foreign streams (conforming RLE/bit-packed streams with run-length runs of any length, levels / int32 / booleans): %d decoded by Go to the values they were built from; %d of them cut inside their last bit-packed block: Go returns an error (with and without spare capacity)", stats.foreign, stats.foreignCut)
+	c.Note("foreign streams (conforming RLE/bit-packed streams with run-length runs of any length and bit-packed runs of any number of groups, levels / int32 / dictionary indexes / booleans): %d decoded by Go to the values they were built from; %d of them cut inside their last bit-packed block: Go returns an error (with and without spare capacity)", stats.foreign, stats.foreignCut)
 	for kind, ex := range stats.exEmpty {
 		c.Note("observation: a run header announcing 0 values is skipped by Go's %s decoder without reading a value, the format's grammar gives a run-length run its value: %s", kind, core.Trunc(ex, 500))
 	}
